@@ -15,7 +15,8 @@ OUTSIDE = ["free-form byte strings (every tag after every tag) — beyond CBMC o
            "inflate of COMPRESSED data (miniz_oxide under CBMC)"]
 # tag, name, width of the length/arity/count field, extra symbolic bytes after it, tail terms, boundary values of the field
 V32 = [0, 1, 2, 255, 65535, 10_000_000, 10_000_001, 100_000_001, 4294967295]
-TAGS = [(108, "list", 4, 0, 1, V32), (104, "small_tuple", 1, 0, 1, [0, 1, 2, 255]), (105, "large_tuple", 4, 0, 1, V32), (116, "map", 4, 0, 2, V32),
+TAGS = [(108, "list_notail", 4, 0, 0, [1, 10_000_000]), (105, "large_tuple_notail", 4, 0, 0, [1, 10_000_000]), (104, "small_tuple_notail", 1, 0, 0, [1, 255]),
+        (108, "list", 4, 0, 1, V32), (104, "small_tuple", 1, 0, 1, [0, 1, 2, 255]), (105, "large_tuple", 4, 0, 1, V32), (116, "map", 4, 0, 2, V32),
         (109, "binary", 4, 0, 1, V32), (77, "bit_binary", 4, 1, 1, V32), (107, "string", 2, 0, 1, [0, 1, 2, 65535]),
         (110, "small_big", 1, 1, 1, [0, 1, 2, 255]), (111, "large_big", 4, 1, 1, V32), (118, "atom_utf8", 2, 0, 1, [0, 1, 2, 255, 256, 65535]),
         (119, "small_atom_utf8", 1, 0, 1, [0, 1, 2, 255]), (100, "atom_latin1", 2, 0, 1, [0, 1, 2, 65535]), (115, "small_atom_latin1", 1, 0, 1, [0, 1, 255]),
@@ -36,7 +37,7 @@ def fn(name, body):
 
 def H(n, d, **kw):
     return Harness(n, d, unwind=6, unwindset=c01.UWS + [(r"^c02::", 40)], cap_s=600, mem_gb=8, alloc_cap=True,
-                   cuts=[r"flate2::|miniz_oxide::", r"dec2flt"],
+                   cuts=[r"miniz_oxide::inflate::core::|miniz_oxide::inflate::stream::inflate", r"dec2flt"],
                    recursion=[(r"parse_term_from_tag|parse_term$|parse_term_borrowed", 2)], **kw)
 
 
@@ -56,6 +57,12 @@ def generate(tier, seed):
             n = "c02_%s__new_fun_numfree_%d" % (ENTRY[w_], v)
             src.append(fn(n, "    new_fun_numfree(%d, %d);" % (v, w_)))
             hs.append(H(n, "%s on a NEW_FUN_EXT with free-variable count %d and nothing behind it" % (ENTRY[w_], v)))
+    for w_ in entries:
+        for tag in (90, 114):
+            for count, have in ((1, 0), (1, 1), (3, 1), (16383, 1), (16384, 1), (65535, 0)):
+                n = "c02_%s__reference%d_words_%d_have%d" % (ENTRY[w_], tag, count, have)
+                src.append(fn(n, "    reference_words(%d, %d, %d, %d);" % (tag, count, have, w_)))
+                hs.append(H(n, "%s on a reference (tag %d) with a valid node and creation announcing %d id words with %d behind it" % (ENTRY[w_], tag, count, have)))
     for k in (0, 1, 2, 10, 18, 19, 20):
         n = "c02_fragment_entry_%d" % k
         src.append(fn(n, "    fragment_entry::<%d>();" % k))
